@@ -277,6 +277,9 @@ func (fr *Frame) enterLoop(li *loopInfo, cur *State) *State {
 			r.assume(st, app("Bool", ">=", t, old))
 		}
 	}
+	for _, k := range keys {
+		r.assumeHeapWF(st, k)
+	}
 	li.modLocals, li.modKeys = locals, keys
 	li.autoFramed = map[string]bool{}
 	li.accOwn = nil
